@@ -287,6 +287,30 @@ def _ipow(base_t: z3.ArithRef, n: int) -> z3.ArithRef:
     return r
 
 
+# opt-in: CPython converts the int operand of a mixed int/float operation to a double and raises
+# OverflowError when it does not fit; the numeric properties are stated over exact reals and leave
+# this off, C17 (no exception other than ParseError/KeyError escapes) turns it on
+FLOAT_RANGE = [False]
+INT_TO_FLOAT_LIMIT = 2 ** 1024 - 2 ** 970     # the smallest int that rounds to 2**1024
+
+
+def _int_to_float_guard(a: Any, b: Any) -> None:
+    if not FLOAT_RANGE[0]:
+        return
+    ka, kb = kind_of(a), kind_of(b)
+    if {ka, kb} != {"int", "float"}:
+        return
+    n = a if ka == "int" else b
+    if not is_sym(n):
+        if abs(n) >= INT_TO_FLOAT_LIMIT:
+            raise OverflowError("int too large to convert to float")
+        return
+    c = ctx()
+    c.stubs_used.add("int -> float conversion raises OverflowError from 2**1024 - 2**970")
+    if c.decide(z3.Or(n.t >= INT_TO_FLOAT_LIMIT, n.t <= -INT_TO_FLOAT_LIMIT)):
+        raise OverflowError("int too large to convert to float")
+
+
 class _SymMixin:
     t: z3.ArithRef
     _kind: str
@@ -297,6 +321,8 @@ class _SymMixin:
             return NotImplemented
         a, b = (other, self) if swap else (self, other)
         kind = _result_kind(a, b, op)
+        if op in ("+", "-", "*", "/", "//", "%"):
+            _int_to_float_guard(a, b)
         ta, tb = term(a), term(b)
         if op == "+":
             return mk(kind, _coerce(ta, tb, lambda x, y: x + y))
